@@ -67,37 +67,7 @@ def gen(rng, tier):
     if rng.random() < 0.3:
         # directed: an arithmetic sub-specification shared by several predicates (the i/o sets of a shared node must not
         # be polluted by one of its users)
-        def term(d):
-            if d <= 0 or rng.random() < 0.4:
-                return ['var', rng.choice(vars_)]
-            op = rng.choice(['+', '-', '*', 'abs', 'neg'])
-            return [op, term(d - 1)] if op in ('abs', 'neg') else [op, term(d - 1), term(d - 1)]
-        t1 = term(2)
-        if t1[0] == 'var':
-            t1 = ['+', t1, ['var', rng.choice(vars_)]]
-        ref1 = ['ref', 'p1']
-
-        def use():
-            r_ = rng.random()
-            if r_ < 0.3:
-                return ref1
-            op = rng.choice(['+', '-', '*'])
-            other = ['var', rng.choice(vars_)] if rng.random() < 0.7 else ['const', rng.choice(sg.LATTICE)]
-            if r_ < 0.65:
-                return [op, ref1, other]
-            if r_ < 0.9:
-                return [op, other, ref1]
-            return [rng.choice(['abs', 'neg']), ref1]
-        def rhs():
-            return ['const', rng.choice(sg.LATTICE)] if rng.random() < 0.6 else ['var', rng.choice(vars_)]
-        preds = [['pred', rng.choice(sg.CMPS), use(), rhs()] for _ in range(rng.randint(2, 3))]
-        preds = [(q if rng.random() < 0.8 else ['pred', q[1], q[3], q[2]]) for q in preds]
-        top = preds[0]
-        for q in preds[1:]:
-            top = [rng.choice(['and', 'or', 'implies']), top, q] if rng.random() < 0.5 else [rng.choice(['and', 'or', 'implies']), q, top]
-        if rng.random() < 0.4:
-            w = rng.choice(['once', 'historically'] + ([] if mode == 'on' else ['always', 'eventually']))
-            top = [w, top]
+        t1, top = common.gen_shared_arith(rng, vars_, mode)
         modular = {'defs': [['p1', t1]], 'top': top, 'via': rng.choice(['add_sub_spec', 'text'])}
         ast = sg.inline(modular['defs'], top)
         pastify = mode == 'on' and rng.random() < 0.1
